@@ -519,82 +519,66 @@ def _dtype_kind(expr):
 
 @rule("DT2", "empty results carry the declared dtype (scaled accessors) resp. the raw dtype (raw accessors)", floor=2)
 def dt2(ctx, R):
+    """Every accessor is put in normal form (helpers that build the empty result inlined; the dtype property and _raw_data_dtype kept
+    as opaque terms) and each zero-length array among its possible results is examined: scaled accessors must give it the declared
+    dtype, raw accessors and read_data(scaled=False) the raw dtype."""
+    from .sym import Sym, show, alpha, simplify
+    from .sem import find, W, leaves
     prog = ctx.prog
-    tmod = prog.module("tdms")
-    cg = ctx.callgraph()
-    sites = []
-    for fi in prog.functions.values():
-        if fi.module is not tmod:
-            continue
-        for n in walk_body(fi.node):
-            if isinstance(n, ast.Call) and call_name(n) in ("np.empty", "np.zeros", "np.array", "numpy.empty") and n.args:
-                shape = prog.try_fold(n.args[0], tmod)
-                is_empty = shape in ((0,), 0, [0], []) or (isinstance(n.args[0], ast.List) and not n.args[0].elts)
-                if not is_empty:
-                    continue
-                dt = None
-                for k in n.keywords:
-                    if k.arg == "dtype":
-                        dt = k.value
-                if dt is None and len(n.args) > 1:
-                    dt = n.args[1]
-                sites.append((fi, n, dt))
-    if len(sites) < 2:
-        raise AnchorMissing("empty-array construction sites in nptdms.tdms (found %d)" % len(sites))
+    RAWQ = "tdms.TdmsChannel._raw_data_dtype"
+    keep = (RAWQ,)
 
-    def accessor_kinds(fi, seen=None):
-        """which public accessor kinds can return a value built in fi (walk callers upwards)"""
-        seen = seen or set()
-        if fi.qual in seen:
-            return set()
-        seen.add(fi.qual)
-        out = set()
-        if fi.qual in SCALED_ACCESSORS:
-            out.add("scaled")
-        if fi.qual in RAW_ACCESSORS:
-            out.add("raw")
-        if fi.qual == "tdms.TdmsChannel.read_data":
-            out.add("read_data")
-        if out:
-            return out
-        for e in cg.callers(fi.qual):
-            if e.kind in ("self", "direct", "prop", "receiver"):
-                out |= accessor_kinds(prog.functions[e.caller], seen)
-        return out
-    for fi, n, dt in sites:
-        key = "%s::%s" % (fi.qual, unparse(n))
-        where = fi.where(n)
+    def kind_of(dt):
         if dt is None:
-            R.violation(key, where, "empty result built without a dtype (NumPy default float64), whatever the channel's type")
+            return "missing"
+        if dt == ("self", "dtype") or (dt[0] == "attr" and dt[2] == "dtype" and dt[1][0] in ("self", "attr", "param")):
+            return "declared"
+        if dt[0] == "call" and dt[1] == RAWQ:
+            return "raw"
+        if dt[0] == "method" and dt[1] == "_raw_data_dtype":
+            return "raw"
+        return None
+
+    def empties(v):
+        out = []
+        for x, _b in find(v, ("call", W("fn", lambda f: isinstance(f, str) and f.split(".")[-1] in ("empty", "zeros", "array")), W(), W())):
+            shape = x[2][0] if x[2] else None
+            is_empty = shape in (("const", 0), ("tuple", (("const", 0),)), ("list", (("const", 0),)), ("list", ()))
+            if not is_empty:
+                continue
+            dt = dict(x[3]).get("dtype") if x[3] else None
+            if dt is None and len(x[2]) > 1:
+                dt = x[2][1]
+            out.append((x, dt))
+        return out
+    n_sites = 0
+    cases = [(q, "scaled", None) for q in sorted(SCALED_ACCESSORS)] + [(q, "raw", None) for q in sorted(RAW_ACCESSORS)] + \
+        [("tdms.TdmsChannel.read_data", "scaled", True), ("tdms.TdmsChannel.read_data", "raw", False)]
+    for q, want, flag in cases:
+        fi = prog.func(q)
+        sy = Sym(prog, fi, fi.cls, stack=keep)
+        bound = {"scaled": ("const", flag)} if flag is not None else None
+        v = sy.function_value(bound)
+        if v[0] == "opaque":
             continue
-        kind = None
-        if isinstance(dt, ast.Name):
-            # dtype = self.dtype if scaled else self._raw_data_dtype()
-            for d in [x for x in walk_body(fi.node) if isinstance(x, ast.Assign) and any(isinstance(t, ast.Name) and t.id == dt.id for t in x.targets)]:
-                v = d.value
-                if isinstance(v, ast.IfExp) and isinstance(v.test, ast.Name) and v.test.id == "scaled":
-                    a, b = _dtype_kind(v.body), _dtype_kind(v.orelse)
-                    R.check(a == "declared" and b == "raw", key, where, "declared dtype when scaled, raw dtype otherwise",
-                            "`%s`: the scaled result must use self.dtype and the unscaled one self._raw_data_dtype()" % unparse(d))
-                    kind = "done"
-                else:
-                    kind = _dtype_kind(v)
-        else:
-            kind = _dtype_kind(dt)
-        if kind == "done":
-            continue
-        acc = accessor_kinds(fi)
-        if kind is None:
-            R.undecided(key, where, "dtype expression `%s` not understood" % unparse(dt))
-        elif not acc:
-            R.undecided(key, where, "no public accessor found that returns this value")
-        elif kind == "declared":
-            R.check("raw" not in acc, key, where, "declared (scaled) dtype in a scaled accessor (%s)" % ",".join(sorted(acc)),
-                    "a raw accessor returns an empty array of the declared (scaled) dtype")
-        elif kind == "raw":
-            R.check("scaled" not in acc and "read_data" not in acc, key, where, "raw dtype in a raw accessor",
-                    "an empty result of a scaled accessor (%s) is built from the RAW dtype `%s`: for a scaled channel empty reads then "
-                    "carry a different dtype than non-empty ones and than channel.dtype" % (",".join(sorted(acc)), unparse(dt)))
+        v = simplify(v, lambda c: None)
+        for x, dt in empties(v):
+            n_sites += 1
+            dtl = [l for _c, l in leaves(dt)] if dt is not None else [None]
+            kinds = {kind_of(l) for l in dtl}
+            key = "%s%s::empty result" % (q, "" if flag is None else "(scaled=%s)" % flag)
+            if "missing" in kinds:
+                R.violation(key, fi.where(), "empty result built without a dtype (NumPy default float64), whatever the channel's type")
+            elif None in kinds:
+                R.undecided(key, fi.where(), "dtype expression `%s` not understood" % show(alpha(dt))[:80])
+            elif want == "scaled":
+                R.check(kinds == {"declared"}, key, fi.where(), "declared (scaled) dtype",
+                        "an empty result of a scaled accessor is built from the RAW dtype `%s`: for a scaled channel empty reads then "
+                        "carry a different dtype than non-empty ones and than channel.dtype" % show(alpha(dt))[:80])
+            else:
+                R.check(kinds == {"raw"}, key, fi.where(), "raw dtype", "a raw accessor returns an empty array of the declared (scaled) dtype `%s`" % show(alpha(dt))[:80])
+    if n_sites < 2:
+        raise AnchorMissing("empty-array results of the accessors of nptdms.tdms (found %d)" % n_sites)
 
 
 def _referenced_region(prog, fi, depth=2):
